@@ -232,6 +232,10 @@ func (m *LeaseManager) getOrCreateSession(ctx context.Context) (*concurrency.Ses
 	if m.session != nil {
 		select {
 		case <-m.session.Done():
+			// The previous session ended while this one was being created and
+			// monitorSession has not run yet (it will find m.session replaced and
+			// do nothing): everything owned so far was tied to the dead session.
+			m.owned = make(map[string]int64)
 		default:
 			s := m.session
 			m.mu.Unlock()
